@@ -856,6 +856,10 @@ class Machine:
             return VArray([deep(v) for _ in range(n)])
         if k == "rawptr":
             cell, path, win = self.place_loc(fr, rv["place"], span)
+            if win is not None:
+                # a raw pointer to a slice view keeps the view: `PtrMetadata` of it is the view's
+                # length (the bounds check of `slice[i]` is built from it)
+                return VRef(cell, path, True, win[0], win[1])
             return VRef(cell, path, True)
         return VOpaque("?", self.new_name("rv:" + k))
 
